@@ -462,13 +462,15 @@ func StoreOrLoadPair[A, B any](x *Extractor, ref Reference, a A, b B) (A, B) {
 	verifSched("pair.enter", ref)
 	x.mu.Lock()
 	defer x.mu.Unlock()
+	// (a cached nil interface value is an untyped nil here; the comma-ok form
+	// yields the zero value instead of panicking on the assertion)
 	if v, ok := x.cache[ka]; ok {
-		a = v.(A)
+		a, _ = v.(A)
 	} else {
 		x.cache[ka] = a
 	}
 	if v, ok := x.cache[kb]; ok {
-		b = v.(B)
+		b, _ = v.(B)
 	} else {
 		x.cache[kb] = b
 	}
